@@ -36,8 +36,8 @@ m = {
  "version": 1,
  "setup_cmd": "tools/vp setup",
  "hooks": {
-  "guard": "--cfg azure_guestproxyagent_verif",
-  "enable": "RUSTFLAGS=\"--cfg azure_guestproxyagent_verif\" (set in harness/.cargo/config.toml and harness_ext/.cargo/config.toml; the harness packages compile /repo's sources with lib root = the crate's main.rs)",
+  "guard": "--cfg azure_guestproxyagent_verif (plus --cfg azure_guestproxyagent_verif_drivers for the in-crate drivers module, hook H6)",
+  "enable": "RUSTFLAGS=\"--cfg azure_guestproxyagent_verif --cfg azure_guestproxyagent_verif_drivers\" and VERIF_DRIVERS_RS=<harness>/src/drivers.rs (set in harness/.cargo/config.toml and harness_ext/.cargo/config.toml; the harness packages compile /repo's sources with lib root = the crate's main.rs)",
   "baseline_off_cmd": "cd /repo && cargo nextest run --workspace --no-fail-fast --test-threads 8 --offline || cargo test --workspace --no-fail-fast --offline",
   "source_commits": hooks_commits,
   "add_only": True
